@@ -75,7 +75,11 @@ def run_threaded(cfg, chooser):
     LP.install(sch)
     saved = {}
     ev = []
-    state = dict(side={}, const=None, sent={"A": [], "B": []}, ndel={"A": 0, "B": 0}, wired={"A": 0, "B": 0})
+    # sent[e]: messages in the order send() ACCEPTED them (appended under the socket lock, where N(S) is assigned):
+    # (acceptance index, length, octets) - with several sender threads per connection this order, not the order of the
+    # calls, is the sending order of the property
+    state = dict(side={}, const=None, sent={"A": [], "B": []}, ndel={"A": 0, "B": 0}, wired={"A": 0, "B": 0},
+                 ctr={"A": 0, "B": 0})
     DLC = tco_mod.DataLinkConnection
     base = tco_mod.TransmissionControlObject
     try:
@@ -108,7 +112,7 @@ def run_threaded(cfg, chooser):
 
         def mid_sent(side):
             def f(data):
-                c = [m for (m, n) in state["sent"][side] if n == len(data) and payload(side, m, n) == bytes(data)]
+                c = [m for (m, n, o) in state["sent"][side] if n == len(data) and o == bytes(data)]
                 later = [m for m in c if m > state["wired"][side]]
                 m = later[0] if later else (c[-1] if c else -1)
                 state["wired"][side] = max(state["wired"][side], m)
@@ -117,7 +121,7 @@ def run_threaded(cfg, chooser):
 
         def mid_any(side):          # identify without advancing any cursor (for Enq / Recv)
             def f(data):
-                c = [m for (m, n) in state["sent"][side] if n == len(data) and payload(side, m, n) == bytes(data)]
+                c = [m for (m, n, o) in state["sent"][side] if n == len(data) and o == bytes(data)]
                 return c
             return f
 
@@ -133,6 +137,7 @@ def run_threaded(cfg, chooser):
                 e = side_of(self)
                 post = snap(self)
                 post["nsq"] += 1       # the PDU is appended by the very next statement, under the same lock
+                state["sent"][e].append((len(state["sent"][e]) + 1, len(send_pdu.data), bytes(send_pdu.data)))
                 log("Send", self, len=len(send_pdu.data), post=post)
             return o_tsend(self, send_pdu, flags)
         wrap(base, "send", tsend)
@@ -215,7 +220,7 @@ def run_threaded(cfg, chooser):
 
         # ---- threads ----------------------------------------------------------------------------------
         done = dict(n=0)
-        napps = 4 + (1 if cfg.get("busy") else 0)
+        napps = 4 + (1 if cfg.get("busy") else 0) + (1 if cfg.get("lensA2") else 0) + (1 if cfg.get("lensB2") else 0)
         results = {}
 
         def finish():
@@ -253,12 +258,10 @@ def run_threaded(cfg, chooser):
                 try:
                     s = socks[e]
                     for n in lens:
-                        mid = len(state["sent"][e]) + 1
-                        state["sent"][e].append((mid, n))          # before the call: Send is logged inside
+                        state["ctr"][e] += 1                        # distinct octets per message (for n >= 4)
                         try:
-                            s.send(payload(e, mid, n))
+                            s.send(payload(e, state["ctr"][e], n))
                         except err_mod.Error as ex:
-                            state["sent"][e].pop()
                             log("SendErr", s._tco, len=n, res=ERRNAME.get(ex.errno, "E%d" % ex.errno))
                 finally:
                     finish()
@@ -311,10 +314,14 @@ def run_threaded(cfg, chooser):
             state["const"] = dict(rwA=a.recv_win, rwB=b.recv_win, smiuA=a.send_miu, rmiuA=a.recv_miu,
                                   smiuB=b.send_miu, rmiuB=b.recv_miu, lmiuA=A.cfg["send-miu"], lmiuB=B.cfg["send-miu"],
                                   agfA=bool(cfg["agfA"]), agfB=bool(cfg["agfB"]))
-            nokA = len([n for n in cfg["lensA"] if n <= a.send_miu])
-            nokB = len([n for n in cfg["lensB"] if n <= b.send_miu])
+            nokA = len([n for n in cfg["lensA"] + cfg.get("lensA2", []) if n <= a.send_miu])
+            nokB = len([n for n in cfg["lensB"] + cfg.get("lensB2", []) if n <= b.send_miu])
             sch.spawn(sender("A", cfg["lensA"]), "sendA")
             sch.spawn(sender("B", cfg["lensB"]), "sendB")
+            if cfg.get("lensA2"):           # a second thread sending on the same connection: they compete for the window
+                sch.spawn(sender("A", cfg["lensA2"]), "sendA2")
+            if cfg.get("lensB2"):
+                sch.spawn(sender("B", cfg["lensB2"]), "sendB2")
             sch.spawn(receiver("A", nokB), "recvA")
             sch.spawn(receiver("B", nokA), "recvB")
             if cfg.get("busy"):
@@ -344,7 +351,9 @@ def gen_cfg(seed):
         return [rnd.choice([0, 1, 2, 5, 30, miu - 1, miu, miu, miu + 1]) if rnd.random() < 0.5 else rnd.randint(0, 12) for _ in range(n)]
     return dict(rwA=rwA, rwB=rwB, miuA=miuA, miuB=miuB, linkA=rnd.choice([128, 131, 248, 2175]), linkB=rnd.choice([128, 130, 1024]),
                 agfA=rnd.random() < 0.7, agfB=rnd.random() < 0.7, lensA=lens(nA, min(miuB, 128)), lensB=lens(nB, min(miuA, 128)),
-                busy=rnd.choice([None, None, "A", "B"]))
+                busy=rnd.choice([None, None, "A", "B"]),
+                lensA2=lens(rnd.choice([3, 8, 12]), min(miuB, 128)) if seed % 3 == 0 else [],
+                lensB2=lens(rnd.choice([2, 6]), min(miuA, 128)) if seed % 6 == 0 else [])
 
 
 def work(job):
